@@ -702,7 +702,7 @@ func c01registryGroups(c *engine.Ctx, only string) {
 
 var c01crashRe = regexp.MustCompile(`(?m)^(panic: |fatal error: )`)
 
-var c01cliHand = []string{"", "(", ")", "(+ 1", "(+ 1 \"s\")", "(defn f [] (f)) 1", "{", "}", "{a = }", "(and)", "(let)", "(cond)", "(for)", "(fn)", "(defmac)", "(def)", "(quote)", "(macexpand)", "(hash a:)", "[1 2].x", "a.b.c", "'", "\"", "`", "^", "~", "~@", "%", "(1 2 3)", "(nil)", "((fn [] 1) 2)",
+var c01cliHand = []string{`((fn [a b] a) 7 (map (fn [x] (return)) [1 2]))`, `(defmac m [] (list (str2sym "msgpack-map") 5)) (m)`, `(defmac m2 [] (list (str2sym "msgpack-map") (quote a) 1)) (m2)`, `(list 1 ^~@(list 2 3))`, "", "(", ")", "(+ 1", "(+ 1 \"s\")", "(defn f [] (f)) 1", "{", "}", "{a = }", "(and)", "(let)", "(cond)", "(for)", "(fn)", "(defmac)", "(def)", "(quote)", "(macexpand)", "(hash a:)", "[1 2].x", "a.b.c", "'", "\"", "`", "^", "~", "~@", "%", "(1 2 3)", "(nil)", "((fn [] 1) 2)",
 	"(aget [1 2] 9)", "(hget (hash) a:)", "(first [])", "(/ 1 0)", "(mod 1 0)", "(str2sym \"\")", "(slice [1] 5 2)", "(break)", "(continue)", "(return)", "(package)", "(struct)", "(_ls)", "(assert false)", "(include)", "(set)", "(mdef)", "(newScope)", "(letseq)", "(begin)", "(or)", "(syntaxQuote)", "(defn)", "1 2 3", "a = ", "= 1", "x := ", "(:)", "(: a)", "(comma)", "(raw64)"}
 
 func c01cli(c *engine.Ctx, only string) {
